@@ -179,6 +179,9 @@ class IdealSeq:
         res = None
         if op == "inv":
             return None, self.state()       # judged by Judge through inv_expect()
+        if op == "lockprobe":
+            # the nested public add of the probe (the Judge appends what the probing thread must see)
+            return ["lockprobe " + r for r in self._add(0 if k == "stack" else -1, b"L")], self.state()
         if k == "list":
             res = self._apply_list(op, w)
         elif k in ("queue", "stack"):
@@ -369,6 +372,8 @@ class IdealVec:
         res = None
         if op == "inv":
             return None, self.state()
+        if op == "lockprobe":
+            return ["lockprobe " + r for r in self._add(n, b"L" * self.os)], self.state()
         if op == "addfirst":
             res = self._add(0, self._elem(w[1]))
         elif op == "addlast":
@@ -567,6 +572,10 @@ class Judge:
                 if self.walked != before:
                     return "the walk since `reset` delivered %s, the contents are %s" % (_short(self.walked), _short(before))
                 self.walked = None
+        if w[0] == "lockprobe" and res is not None:
+            # THREADSAFE: while lock() is in force (also after the nested call released ITS level) another
+            # thread finds the mutex busy, after unlock() free
+            res = [r + (" held=1 after=0" if self.ts else " nolock") for r in res]
         if res is not None and got_res not in res:
             return "`%s` on %s: expected %s, got `%s`" % (op[:80], _short(before), " or ".join("`%s`" % r[:120] for r in res), got_res[:160])
         if got_state != state:
